@@ -162,8 +162,22 @@ commodity_t::find_price(const commodity_t * commodity,
   else
     when = CURRENT_TIME();
 
-  if (base->value_expr)
-    return find_price_from_expr(*base->value_expr, commodity, when);
+  // A valuation expression may itself ask for the price of this commodity
+  // (`value market(1 AAA, date)'); that inner request is answered from the
+  // price history instead of evaluating the expression within itself
+  if (base->value_expr && ! base->has_flags(COMMODITY_VALUE_EXPR_RUNNING)) {
+    base->add_flags(COMMODITY_VALUE_EXPR_RUNNING);
+    try {
+      optional<price_point_t> point =
+        find_price_from_expr(*base->value_expr, commodity, when);
+      base->drop_flags(COMMODITY_VALUE_EXPR_RUNNING);
+      return point;
+    }
+    catch (...) {
+      base->drop_flags(COMMODITY_VALUE_EXPR_RUNNING);
+      throw;
+    }
+  }
 
   optional<price_point_t>
     point(target ?
